@@ -9,6 +9,7 @@ git -C /repo worktree remove --force $WT 2>/dev/null
 git -C /repo worktree add -q --detach $WT HEAD || exit 9
 cd $WT
 export PYTHONPATH=$WT
+export SEMANTIVA_ROOT=$WT
 timeout 600 /venv/bin/python $SRC/demo_$X.py > $SRC/confirm_${X}_clean.log 2>&1; RC_CLEAN=$?
 git apply $SRC/patch_$X.diff; RC_APPLY=$?
 timeout 600 /venv/bin/python $SRC/demo_$X.py > $SRC/confirm_${X}_patched.log 2>&1; RC_PATCHED=$?
